@@ -386,11 +386,14 @@ def run(ctx):
                 ctx.violation("exact landscape differs from the k-th-largest-tent definition and the repeated-bar shortcut did "
                               "not fire: " + wrong, {"dgms": c["dgms"], "hom_deg": c["hom_deg"]},
                               found_input=True, checker=repr(cert), code_output=out)
-        elif not mdl_ok:
-            disagreements += 1
-            # correspondence broke, the property holds on this input (the checker accepted the code's output)
-            ctx.count("model_mismatch_but_certified")
-            if ctx.counters["model_mismatch_but_certified"] <= 1:
+        if not mdl_ok:
+            # correspondence broke.  Either the property holds on this input (the checker accepted the code's output), or
+            # the result is wrong with the shortcut fired but is not what the model of the current code (shortcut
+            # included) returns — then something besides the known shortcut changed
+            if wrong is None:
+                disagreements += 1
+            ctx.count("model_mismatch")
+            if ctx.counters["model_mismatch"] <= 1:
                 ctx.extra["first_model_mismatch"] = {"case": c, "code": out, "code_fired": fired, "model": repr(model)[:2000]}
         if wrong is None and fired:
             ctx.count("shortcut_fired_but_correct")
@@ -415,11 +418,12 @@ def run(ctx):
     ctx.extra["disagreements_checked"] = disagreements
     ctx.extra["shortcut_fired_cases"] = fired_cases
     ctx.extra["shortcut_fired_and_wrong"] = fired_wrong
-    mm = ctx.counters.get("model_mismatch_but_certified", 0)
+    mm = ctx.counters.get("model_mismatch", 0)
     if mm and not any(f for _, f in ctx.violations):
         fm = ctx.extra.get("first_model_mismatch", {})
-        ctx.violation("critical pairs of the real code differ from the model of compute_landscape on %d diagram(s); on every "
-                      "one of them the code's output was still certified equal to the definition" % mm,
+        ctx.violation("critical pairs (or shortcut firings) of the real code differ from the model of compute_landscape on %d "
+                      "diagram(s); on each of them the code's output was still certified equal to the definition, or was wrong "
+                      "with the known shortcut fired" % mm,
                       {"correspondence": "pl.exact", "line": "pl.exact %d %s" % (fm["case"]["hom_deg"], enc(fm["case"]["dgms"])),
                        "code": fm.get("code"), "code_fired": fm.get("code_fired"), "model": fm.get("model")}, found_input=False)
     class_share(ctx, programs)
